@@ -189,6 +189,115 @@ theorem select_variables_geometry {β : Type} (ds : List (String × β)) (reques
 theorem select_variables_sublist {β : Type} (ds : List (String × β)) (requested geometry coords : List String) :
     (selectVariables ds requested geometry coords).Sublist ds := List.filter_sublist
 
+/-! ### the tables of a clipped mesh agree with one another -/
+
+/-- the new index of a kept element -/
+def newIndex (keep : List Bool) (i : Nat) : Nat := (keep.take i).count true
+
+theorem filterMap_id_of_forall {β : Type} (f : β → Option β) :
+    ∀ (l : List β), (∀ x ∈ l, f x = some x) → l.filterMap f = l
+  | [], _ => rfl
+  | a :: as, h => by
+    rw [List.filterMap_cons, h a (by simp)]
+    simp only
+    rw [filterMap_id_of_forall f as (fun x hx => h x (List.mem_cons_of_mem _ hx))]
+
+theorem compress_range (keep : List Bool) (n : Nat) :
+    compress keep (List.range n) = (List.range n).filter fun i => keep.getD i false := by
+  simp only [compress, List.length_range]
+  apply filterMap_id_of_forall
+  intro i hi
+  have hi' : i < n := List.mem_range.mp (List.mem_filter.mp hi).1
+  simp [hi']
+
+/-- the kept rows in order: the row at the new index of a kept row `r` is row `r` -/
+theorem kept_row_index (keep : List Bool) (n r : Nat) (hlen : keep.length = n) (hr : r < n)
+    (hk : keep.getD r false = true) :
+    ((List.range n).filter fun i => keep.getD i false)[newIndex keep r]? = some r := by
+  rw [← compress_range]
+  have := compress_get keep (List.range n) r (by simpa using hlen) (by simpa using hr) hk
+  simpa [newIndex] using this
+
+/-- **a kept row, at its new index, is the old row with every reference renumbered** -/
+theorem updated_row (table : List (List (Option Nat))) (rowKeep : List Bool) (colNew : List (Option Nat))
+    (r : Nat) (hlen : rowKeep.length = table.length) (hr : r < table.length)
+    (hk : rowKeep.getD r false = true) :
+    (updateConnectivity table rowKeep colNew)[newIndex rowKeep r]? =
+      some (table[r].map fun e => e.bind fun x => (colNew[x]?).join) := by
+  rw [update_connectivity_spec, kept_row_index rowKeep table.length r hlen hr hk]
+  simp [hr]
+
+/-- a reference to a kept element becomes that element's new index -/
+theorem updated_entry (table : List (List (Option Nat))) (rowKeep colKeep : List Bool)
+    (r k x : Nat) (hlen : rowKeep.length = table.length) (hr : r < table.length)
+    (hk : rowKeep.getD r false = true) (hx : x < colKeep.length) (hkx : colKeep[x] = true)
+    (he : table[r][k]? = some (some x)) :
+    ((updateConnectivity table rowKeep (renumber colKeep))[newIndex rowKeep r]?).bind (·[k]?) =
+      some (some (newIndex colKeep x)) := by
+  rw [updated_row table rowKeep _ r hlen hr hk]
+  simp only [Option.bind_some, List.getElem?_map, he, Option.map_some, Option.bind_some,
+    renumber_spec colKeep x hx, hkx, if_true, Option.join_some, newIndex]
+
+/-- kept elements keep their identity: two kept elements get the same new index only if they are the same -/
+theorem newIndex_injective (keep : List Bool) (x y : Nat) (hx : x < keep.length) (hy : y < keep.length)
+    (hkx : keep[x] = true) (hky : keep[y] = true) (h : newIndex keep x = newIndex keep y) : x = y := by
+  have ex := renumber_spec keep x hx
+  have ey := renumber_spec keep y hy
+  simp only [hkx, hky, if_true] at ex ey
+  rcases Nat.lt_trichotomy x y with hlt | heq | hgt
+  · have := renumber_mono keep x y _ _ hlt ex ey; simp only [newIndex] at h; omega
+  · exact heq
+  · have := renumber_mono keep y x _ _ hgt ey ex; simp only [newIndex] at h; omega
+
+/-- **The clipped tables agree with each other exactly as the original ones did.**  Take two connectivity
+tables whose entries refer to the same kind of element (face-node and edge-node; edge-face and face-face)
+and an entry of each, in kept rows, referring to kept elements `x` and `y`.  After clipping, the two
+entries are present at the rows' new positions and are equal **iff** `x = y`: every incidence the
+original tables shared ("this edge's node is that face's corner") is shared by the clipped tables, and
+none is invented. -/
+theorem tables_agree_after_clip (A B : List (List (Option Nat))) (keepP keepQ colKeep : List Bool)
+    (p k q m x y : Nat)
+    (hlenA : keepP.length = A.length) (hp : p < A.length) (hkp : keepP.getD p false = true)
+    (hlenB : keepQ.length = B.length) (hq : q < B.length) (hkq : keepQ.getD q false = true)
+    (hx : x < colKeep.length) (hkx : colKeep[x] = true) (hy : y < colKeep.length) (hky : colKeep[y] = true)
+    (ha : A[p][k]? = some (some x)) (hb : B[q][m]? = some (some y)) :
+    ∃ x' y', ((updateConnectivity A keepP (renumber colKeep))[newIndex keepP p]?).bind (·[k]?) = some (some x') ∧
+      ((updateConnectivity B keepQ (renumber colKeep))[newIndex keepQ q]?).bind (·[m]?) = some (some y') ∧
+      x' < colKeep.count true ∧ y' < colKeep.count true ∧ (x' = y' ↔ x = y) := by
+  refine ⟨newIndex colKeep x, newIndex colKeep y,
+    updated_entry A keepP colKeep p k x hlenA hp hkp hx hkx ha,
+    updated_entry B keepQ colKeep q m y hlenB hq hkq hy hky hb,
+    count_take_lt colKeep x hx hkx, count_take_lt colKeep y hy hky, ?_⟩
+  constructor
+  · exact newIndex_injective colKeep x y hx hy hkx hky
+  · rintro rfl; rfl
+
+/-- **A reference can be followed in the clipped dataset.**  If entry `k` of kept row `f` of table `C`
+(face-edge, say) names a kept element `e`, and `e`'s own row lives in table `B` (edge-node) whose rows are
+clipped by the same mask that renumbers `C`'s references, then in the clipped dataset the entry names the
+row that `e`'s row became, and that row is `e`'s old row with its references renumbered. -/
+theorem reference_followed (C B : List (List (Option Nat))) (keepF keepE : List Bool) (colNewB : List (Option Nat))
+    (f k e : Nat)
+    (hlenC : keepF.length = C.length) (hf : f < C.length) (hkf : keepF.getD f false = true)
+    (hlenB : keepE.length = B.length) (he : e < B.length) (hke : keepE[e]'(by omega) = true)
+    (hc : C[f][k]? = some (some e)) :
+    ∃ e', ((updateConnectivity C keepF (renumber keepE))[newIndex keepF f]?).bind (·[k]?) = some (some e') ∧
+      (updateConnectivity B keepE colNewB)[e']? = some (B[e].map fun v => v.bind fun x => (colNewB[x]?).join) := by
+  refine ⟨newIndex keepE e, updated_entry C keepF keepE f k e hlenC hf hkf (by omega) hke hc, ?_⟩
+  exact updated_row B keepE colNewB e hlenB he
+    (by simp [List.getD_eq_getElem?_getD, List.getElem?_eq_getElem (show e < keepE.length by omega), hke])
+
+/-- non-vacuity: two triangles sharing an edge, the second face kept; its edge row points at its own nodes -/
+example :
+    let faceNode := [[some 0, some 1, some 2], [some 1, some 3, some 2]]
+    let edgeNode := [[some 0, some 1], [some 1, some 2], [some 2, some 0], [some 1, some 3], [some 3, some 2]]
+    let keepF := [false, true]
+    let keepE := [false, true, false, true, true]
+    let keepN := [false, true, true, true]
+    updateConnectivity faceNode keepF (renumber keepN) = [[some 0, some 2, some 1]] ∧
+    updateConnectivity edgeNode keepE (renumber keepN) = [[some 0, some 1], [some 0, some 2], [some 2, some 1]] := by
+  decide
+
 /-! ### non-vacuity -/
 example : renumber [false, true, true, false, true] = [none, some 0, some 1, none, some 2] := by decide
 example : updateConnectivity [[some 0, some 1, none], [some 1, some 2, some 3]] [false, true] [none, some 0, some 1, none]
